@@ -273,9 +273,9 @@ func cmdCheck(id, tier string, writeBaseline bool) int {
 			}
 		}
 		// many undecided obligations at once mean the code changed, not that the machine was busy
-		if len(retry) <= 8 {
+		if len(retry) <= 16 {
 			var rwg sync.WaitGroup
-			rsem := make(chan struct{}, 3)
+			rsem := make(chan struct{}, 4)
 			for _, i := range retry {
 				rwg.Add(1)
 				go func(i int) {
